@@ -32,6 +32,10 @@ type repCase struct {
 	// Assign: exported fields of the decoded object assigned (defined values) before the
 	// report is built; the report must show the object as it is then
 	Assign []fieldSet `json:"fields_assigned_after_decode,omitempty"`
+	// FieldBuilt: the object is a constructor result with every field assigned from Vector,
+	// never decoded (its encodings then show only what the library encodes for such objects;
+	// the report must show the same)
+	FieldBuilt bool `json:"field_built,omitempty"`
 }
 
 func scoreText(f float64) string { return strconv.FormatFloat(f, 'f', -1, 64) }
@@ -155,6 +159,13 @@ var checkC17 = register("C17/report", func(c repCase) string {
 	o, err := decode3(level, c.Vector, false)
 	if err != nil || o.isNil() {
 		return fmt.Sprintf("well-formed vector rejected: %v", err)
+	}
+	if c.FieldBuilt {
+		fb, ok := makeSubjectFieldBuilt(opsCase{Ver: 3, Level: c.Level, Input: c.Vector})
+		if !ok {
+			return ""
+		}
+		o = fb.o3
 	}
 	for _, as := range c.Assign {
 		if m := metricOf(3, as.Field); m != nil && m.Level <= level && as.Index >= 0 && as.Index < len(m.Codes) {
@@ -370,6 +381,7 @@ func TestC17(t *testing.T) {
 				cs.Assign = append(cs.Assign, fieldSet{Field: m.Name, Index: rapid.IntRange(1, len(m.Codes)-1).Draw(rt, "aidx")})
 			}
 		}
+		cs.FieldBuilt = rapid.IntRange(0, 7).Draw(rt, "fieldbuilt") == 0
 		// non-triviality: distinct triples and >= 2 distinct severities across levels
 		nt := false
 		if ref, ok := spec.AcceptV3(cs.Vector, lv); ok {
